@@ -31,11 +31,11 @@ def case_term(case, obs):
                                  cq_list(sf.raw_term(r) for r in obs["raw"]), sf.gout_term(obs["out"]))
 
 
-def make_case(rng, ast, kind, canonical=False):
-    text, lex, r = sf.render_stmt(rng, ast, canonical)
+def make_case(rng, ast, kind, canonical=False, force=None):
+    text, lex, r = sf.render_stmt(rng, ast, canonical, force)
     if r.unrenderable:
         return None
-    return {"ast": ast, "text": text, "opts_term": r.opts_term(), "kind": kind, "nlex": len(lex)}
+    return {"ast": ast, "text": text, "opts_term": r.opts_term(), "kind": kind, "nlex": len(lex), "flags": r.flags()}
 
 
 def bool_contexts(rng, e):
@@ -69,7 +69,7 @@ def generate(rng, tier):
             if c:
                 c["shape"] = shape
                 cases.append(c)
-    nast, nrend = (1100, 2) if tier == "quick" else (12000, 3)
+    nast, nrend = (2000, 3) if tier == "quick" else (12000, 3)
     for _ in range(nast):
         ast = sf.gen_stmt(rng)
         for k in range(nrend):
@@ -174,7 +174,7 @@ def shrink(ctx, case, which):
         for a in shrink_candidates(cur["ast"]):
             if a["k"] == "select" and sf.validate_group_by(a["list"], a["group"] or []) is not None:
                 continue
-            c = make_case(ctx.rng, a, "shrunk", canonical=True)
+            c = make_case(ctx.rng, a, "shrunk", canonical=True, force=case.get("flags"))
             if c:
                 cands.append(c)
         if not cands:
@@ -277,7 +277,7 @@ def _run(ctx):
     vlib.log("  [c10 %.1fs] %d cases evaluated" % (time.time() - t0, len(cases)))
 
     def pack(c, o):
-        return {"case": {k: c[k] for k in ("ast", "text", "opts_term", "kind")},
+        return {"case": {k: c.get(k) for k in ("ast", "text", "opts_term", "kind", "nlex")},
                 "observed": {"toks": o["toks"], "out": o["out"]}}
 
     for i in sm[:2]:
@@ -319,7 +319,7 @@ def _run(ctx):
         "features": feats,
         "boolean_shapes_exhaustive_up_to_leaves": 3 if ctx.tier == "quick" else 4,
         "cases_inside_theorem_scope": len(cases) - len(scope),
-        "avg_tokens_per_statement": round(sum(c["nlex"] for c in cases) / max(1, len(cases)), 1),
+        "avg_tokens_per_statement": round(sum(c.get("nlex", 0) for c in cases) / max(1, len(cases)), 1),
         "exhaustive": False,
         "samples": [{"text": c["text"][:100]} for c in cases[:: max(1, len(cases) // 4)][:4]],
     })
